@@ -5,8 +5,15 @@ RULE = ("random event histories for 1-2 configured instruments (plus items for a
         "2-8 (thorough: 2-12) prices at 5 different scales, 10/30/60 % zero amounts (written 0, 0.0, 0.000), duplicates of a price inside one update, "
         "one-sided updates, repeated / decreasing sequence numbers; every event is built with the real OrderBook::new and applied with the real "
         "OrderBook::update, and the whole stream of each case is replayed through the real OrderBookL2Manager::run over an OrderBookMapMulti. "
-        "thorough additionally enumerates, for bids and for asks, every sequence of <= 2 updates with <= 2 levels each over "
-        "{front, present, middle, back} x {delete, set} from a two-level book (10 806 cases). A case is distinct by the SHA-1 of its op lines and "
+        "thorough additionally enumerates, for bids and for asks and through `upd` and through `updr`, every sequence of <= 2 updates with <= 2 levels each over "
+        "{front, present, middle, back} x {delete, set} from a two-level book (21 612 cases). "
+        "Input-domain family (one `d` case per five random ones, own random stream; class by case index): signed - price grids below, at and above zero "
+        "(also written -0), negative amounts (set, never delete; 4 decimals so that they cannot cancel a positive best amount), zero written -0 / -0.0, a "
+        "price spelled with trailing zeros (100 / 100.0 / 100.00); sequence - u64 sequence numbers 0, 1, 2^32-1, 2^32, 2^53+1, 2^63-1, 2^63, u64::MAX-1, "
+        "u64::MAX in any order; magnitude - prices at 1e-8 and at 1e12 with amounts 1e-8 ... 1e12 (every product within 28 digits); shaped - uncrossed and "
+        "locked books (bids drawn below asks) and books one side of which never receives a level; long - sides of 100-260 levels with single upserts at "
+        "front / middle / back and update lists of up to 300 levels; every class adds `depth k d` = snapshot(d) for d in {0, 1, len-1, len, len+1, 2..9, "
+        "100, usize::MAX}. corpus/C05/dom_input_domain.ops holds one hand-written case per class. A case is distinct by the SHA-1 of its op lines and "
         "non-trivial when the implementation's observation block changes at least once")
 ASSUMPTIONS = [
     "every Snapshot event carries sides with pairwise distinct prices and non-zero amounts (OrderBook::new sorts but neither dedups nor drops zeros; "
@@ -16,7 +23,9 @@ ASSUMPTIONS = [
     "the sort of OrderBookSide::{bids, asks} is modelled as a stable sort - which it is since fix 911b9f8 (`sort_by`; before: `sort_unstable_by`, whose order of equal-priced levels inside one update is unspecified); the harness prints the "
     "stored levels of every event so a different order shows up as a correspondence break; all theorems about updates hold for any order",
     "exact rational arithmetic; rust_decimal rounding of the volume-weighted mid-price is compared to 1e-18; Decimal division by zero "
-    "(best amounts summing to 0, only possible with negative amounts) panics in Rust and is not modelled; generated amounts are >= 0",
+    "(best amounts summing to 0, only possible with negative amounts) panics in Rust and is not modelled here (the sub-check C05M models it); generated "
+    "negative amounts have a non-zero 4th decimal and positive ones at most 3 decimals, so no two generated best amounts sum to 0",
+    "the harness reports a sequence number or a depth that is not a u64 / usize as bad-op, and so do both drivers (>= 2^64)",
     "mid-price with one empty side: the property text does not define it; the spec follows the documented and test-pinned convention (best price of the other side)",
     "time_engine (copied verbatim from the event) is not modelled; the manager is run single-threaded over a finite stream (lock contention with readers not modelled)",
     "the arithmetic kernels the free functions mid_price / volume_weighted_mid_price and struct Level (barter-data/src/books/mod.rs) are additionally tied to the source by translation: tools/rust2lean.py regenerates their Lean definitions from the current Rust text before every build (PREBUILD) and theorem kernels_agree_with_source proves them equal to the model's definitions for all arguments; trusted there: the translator's reading of the small Rust subset it accepts (it rejects everything else) and its fixed Decimal prelude (abs, is_zero, checked_div = None exactly on a zero divisor, MAX/MIN)",
@@ -26,6 +35,7 @@ PREBUILD = [["python3", "tools/rust2lean.py", "--require", "book"]]
 
 _CLAUSE = {"seq": "sequence_of_last_event", "bids": "levels_equal_map", "asks": "levels_equal_map", "mid": "mid_price",
            "vwmid": "volume_weighted_mid_price", "snap0": "depth_snapshot", "snap1": "depth_snapshot", "snap3": "depth_snapshot",
+           "snapd": "depth_snapshot",
            "book": "manager_book", "skip": "manager_skip"}
 
 
